@@ -39,9 +39,9 @@ theorem find_name_of_nodup (fields : List ArgDef) (hn : (fields.map (·.name)).N
 /-- the field-by-field comparison of an input object: the implementation walks the declared fields and
     looks each one up among the given entries, the specification walks the entries and looks each
     one up among the declared fields; with unique keys and unique field names the two agree -/
-theorem object_agree (fields : List ArgDef) (hF : (fields.map (·.name)).Nodup)
-    (fs : List (String × GValue)) (hK : (fs.map (·.1)).Nodup) (req : ArgDef → Bool)
-    (vM : TypeRef → GValue → Bool) (vS : TypeRef → DValue → Bool)
+theorem object_agree {β γ : Type} (litOf : β → γ) (fields : List ArgDef) (hF : (fields.map (·.name)).Nodup)
+    (fs : List (String × β)) (hK : (fs.map (·.1)).Nodup) (req : ArgDef → Bool)
+    (vM : TypeRef → β → Bool) (vS : TypeRef → γ → Bool)
     (hv : ∀ p ∈ fs, ∀ t, vM t p.2 = vS t (litOf p.2)) :
     ((∀ f ∈ fields, (∀ p, fs.find? (·.1 = f.name) = some p → vM f.ty p.2 = true)
         ∧ (fs.find? (·.1 = f.name) = none → req f = false))
@@ -223,7 +223,7 @@ theorem valid_eq_lit_obj (S : VSchema) (hS : LitSchema S) (fuel : Nat) (n : Stri
   rw [Bool.eq_iff_iff]
   simp only [Bool.and_eq_true, Bool.or_eq_true, Bool.not_eq_true', List.all_eq_true, List.any_eq_true, decide_eq_true_eq]
   have hv : ∀ p ∈ fs, ∀ t, validInput S {} fuel t p.2 = litOk S fuel t (litOf p.2) := fun p hp t => ih t p.2 (hvals p hp)
-  have hOA := object_agree idef.fields hnames fs hkeys (fun f => f.ty.isNonNull && f.default.isNone)
+  have hOA := object_agree litOf idef.fields hnames fs hkeys (fun f => f.ty.isNonNull && f.default.isNone)
     (validInput S {} fuel) (litOk S fuel) hv
   have hmem : ∀ x : String × DValue, x ∈ litOfF fs ↔ ∃ p ∈ fs, x = (p.1, litOf p.2) := by
     intro x; rw [litOfF_eq, List.mem_map]
@@ -293,6 +293,200 @@ end AGV.Lemmas.ValidateLiterals
 
 namespace AGV.Lemmas.ValidateLiterals
 open AGV.Core AGV.Model.Validate AGV.Lemmas.ValidateRules
+open AGV.Spec.Validate (litOk tyDef kindIs)
+
+-- ------------------------------------------------------------------ the same comparison for literals WITH variables
+
+mutual
+/-- no object literal inside the argument repeats a key -/
+def keysOkD : DValue → Bool
+  | .list xs => keysOkDL xs
+  | .obj fs => !(Spec.Validate.hasDup (fs.map (·.1))) && keysOkDF fs
+  | _ => true
+def keysOkDL : List DValue → Bool
+  | [] => true
+  | x :: xs => keysOkD x && keysOkDL xs
+def keysOkDF : List (String × DValue) → Bool
+  | [] => true
+  | (_, x) :: xs => keysOkD x && keysOkDF xs
+end
+
+theorem keysOkDL_mem (xs : List DValue) (h : keysOkDL xs = true) : ∀ x ∈ xs, keysOkD x = true := by
+  induction xs with
+  | nil => intro x hx; cases hx
+  | cons a as ih =>
+    simp only [keysOkDL, Bool.and_eq_true] at h
+    intro x hx
+    rcases List.mem_cons.mp hx with rfl | hx
+    · exact h.1
+    · exact ih h.2 x hx
+
+theorem keysOkDF_mem (fs : List (String × DValue)) (h : keysOkDF fs = true) : ∀ p ∈ fs, keysOkD p.2 = true := by
+  induction fs with
+  | nil => intro x hx; cases hx
+  | cons a as ih =>
+    obtain ⟨k, v⟩ := a
+    simp only [keysOkDF, Bool.and_eq_true] at h
+    intro x hx
+    rcases List.mem_cons.mp hx with rfl | hx
+    · exact h.1
+    · exact ih h.2 x hx
+
+/-- everything but input objects and variables -/
+theorem lit_eq_simple (S : VSchema) (hS : LitSchema S) (fuel : Nat) (n : String) (c : DValue)
+    (hobj : S.kindOf n = some .input → ∀ fs, c ≠ .obj fs) :
+    validLit S {} (fuel + 1) (.named n) c = litOk S (fuel + 1) (.named n) c := by
+  cases hk : S.kindOf n with
+  | none =>
+    obtain ⟨h1, h2, h3, h4, h5⟩ := not_builtin S hS n (by simp [hk])
+    cases c <;> simp [validLit, litOk, hk, kindIs_of, h1, h2, h3, h4, h5]
+  | some k =>
+    cases k with
+    | scalar =>
+      cases c <;> simp [validLit, litOk, hk, kindIs_of, Model.Validate.i32Min, Model.Validate.i32Max,
+        Spec.Validate.i32Min, Spec.Validate.i32Max] <;> first | rfl | congr
+    | enum => cases c <;> simp [validLit, litOk, hk, kindIs_of, ty?_eq] <;> (cases tyDef S n <;> simp)
+    | input =>
+      cases c with
+      | obj fs => exact absurd rfl (hobj hk fs)
+      | _ => simp [validLit, litOk, hk, kindIs_of]
+    | object =>
+      obtain ⟨h1, h2, h3, h4, h5⟩ := not_builtin S hS n (by simp [hk])
+      cases c <;> simp [validLit, litOk, hk, kindIs_of, h1, h2, h3, h4, h5]
+    | interface =>
+      obtain ⟨h1, h2, h3, h4, h5⟩ := not_builtin S hS n (by simp [hk])
+      cases c <;> simp [validLit, litOk, hk, kindIs_of, h1, h2, h3, h4, h5]
+    | union =>
+      obtain ⟨h1, h2, h3, h4, h5⟩ := not_builtin S hS n (by simp [hk])
+      cases c <;> simp [validLit, litOk, hk, kindIs_of, h1, h2, h3, h4, h5]
+
+/-- the input-object case, given the comparison for the values of the entries -/
+theorem lit_eq_obj (S : VSchema) (hS : LitSchema S) (fuel : Nat) (n : String) (fs : List (String × DValue))
+    (hin : S.kindOf n = some .input) (hk : keysOkD (.obj fs) = true)
+    (ih : ∀ t c, keysOkD c = true → validLit S {} fuel t c = litOk S fuel t c) :
+    validLit S {} (fuel + 1) (.named n) (.obj fs) = litOk S (fuel + 1) (.named n) (.obj fs) := by
+  obtain ⟨idef, hidef, hnames⟩ := hS.inputs n hin
+  have hidef' : S.inputs.find? (·.name = n) = some idef := hidef
+  simp only [keysOkD, Bool.and_eq_true, Bool.not_eq_true'] at hk
+  have hkeys : (fs.map (·.1)).Nodup := (AGV.Lemmas.ValidateGraph.hasDup_false_iff _).mp hk.1
+  have hvals := keysOkDF_mem fs hk.2
+  simp only [validLit, litOk, hin, kindIs_of, hidef, hidef']
+  have e1 : (Core.Kind.input == Core.Kind.enum) = false := by decide
+  have e2 : (Core.Kind.input == Core.Kind.input) = true := by decide
+  simp only [e1, e2, Bool.false_eq_true, if_false, if_true, hk.1, Bool.not_false, Bool.and_true]
+  rw [Bool.eq_iff_iff]
+  simp only [Bool.and_eq_true, Bool.or_eq_true, Bool.not_eq_true', List.all_eq_true, List.any_eq_true, decide_eq_true_eq]
+  have hv : ∀ p ∈ fs, ∀ t, validLit S {} fuel t p.2 = litOk S fuel t (id p.2) := fun p hp t => ih t p.2 (hvals p hp)
+  have hOA := object_agree id idef.fields hnames fs hkeys (fun f => f.ty.isNonNull && f.default.isNone)
+    (validLit S {} fuel) (litOk S fuel) hv
+  simp only [id] at hOA
+  constructor
+  · rintro ⟨⟨hO, hB⟩, hC⟩
+    have hPB : ∀ f ∈ idef.fields, (∀ p, fs.find? (·.1 = f.name) = some p → validLit S {} fuel f.ty p.2 = true)
+        ∧ (fs.find? (·.1 = f.name) = none → (f.ty.isNonNull && f.default.isNone) = false) := by
+      intro f hf
+      have := hB f hf
+      refine ⟨fun p hp => ?_, fun hn => ?_⟩
+      · simp only [hp] at this; exact this
+      · simp only [hn] at this; exact (Bool.not_eq_true' _).mp this
+    obtain ⟨QA, QC⟩ := hOA.mp ⟨hPB, hC⟩
+    refine ⟨⟨?_, ?_⟩, ?_⟩
+    · intro p hp
+      obtain ⟨f, hf, hval⟩ := QA p hp
+      simp only [hf]; exact hval
+    · intro f hf
+      rcases QC f hf with h | ⟨p, hp, hname⟩
+      · exact Or.inl h
+      · exact Or.inr ⟨p, hp, hname⟩
+    · cases ho : idef.oneof with
+      | false => exact Or.inl rfl
+      | true =>
+        right
+        simp only [ho, if_true] at hO
+        match fs, hO with
+        | [], hO => simp at hO
+        | [(k, v)], hO => cases v <;> simp at hO ⊢
+        | _ :: _ :: _, hO => simp at hO
+  · rintro ⟨⟨hA, hC⟩, hO⟩
+    have hQA : ∀ p ∈ fs, ∃ f, idef.fields.find? (·.name = p.1) = some f ∧ litOk S fuel f.ty p.2 = true := by
+      intro p hp
+      have := hA p hp
+      cases hfind : idef.fields.find? (·.name = p.1) with
+      | none => simp [hfind] at this
+      | some f => simp only [hfind] at this; exact ⟨f, rfl, this⟩
+    have hQC : ∀ f ∈ idef.fields, (f.ty.isNonNull && f.default.isNone) = false ∨ ∃ p ∈ fs, p.1 = f.name := by
+      intro f hf
+      rcases hC f hf with h | ⟨x, hx, hname⟩
+      · exact Or.inl h
+      · exact Or.inr ⟨x, hx, hname⟩
+    obtain ⟨PB, PC⟩ := hOA.mpr ⟨hQA, hQC⟩
+    refine ⟨⟨?_, ?_⟩, PC⟩
+    · cases ho : idef.oneof with
+      | false => simp
+      | true =>
+        simp only [if_true]
+        rcases hO with h | ⟨h1, h2⟩
+        · rw [ho] at h; cases h
+        · match fs, h1, h2 with
+          | [], h1, _ => simp at h1
+          | [(k, v)], _, h2 => cases v <;> simp at h2 ⊢
+          | _ :: _ :: _, h1, _ => simp at h1
+    · intro f hf
+      obtain ⟨h1, h2⟩ := PB f hf
+      cases hfind : fs.find? (·.1 = f.name) with
+      | none => simp only []; exact (Bool.not_eq_true' _).mpr (h2 hfind)
+      | some p => simp only []; exact h1 p hfind
+
+/-- `is_valid_input_value` over literals (repaired, a variable acceptable anywhere) = §5.6.1 on
+    arguments whose object literals do not repeat keys -/
+theorem lit_eq (S : VSchema) (hS : LitSchema S) (fuel : Nat) :
+    ∀ (t : TypeRef) (c : DValue), keysOkD c = true → validLit S {} fuel t c = litOk S fuel t c := by
+  induction fuel with
+  | zero => intro t c _; rfl
+  | succ fuel ih =>
+    intro t c hk
+    by_cases hvar : ∃ x, c = .var x
+    · obtain ⟨x, rfl⟩ := hvar; simp [validLit, litOk]
+    cases t with
+    | named n =>
+      by_cases hin : S.kindOf n = some .input ∧ ∃ fs, c = .obj fs
+      · obtain ⟨h1, fs, rfl⟩ := hin
+        exact lit_eq_obj S hS fuel n fs h1 hk ih
+      · exact lit_eq_simple S hS fuel n c (fun h fs hc => hin ⟨h, fs, hc⟩)
+    | list t =>
+      cases c with
+      | var x => exact absurd ⟨x, rfl⟩ hvar
+      | list xs =>
+        simp only [validLit, litOk]
+        have := keysOkDL_mem xs (by simpa [keysOkD] using hk)
+        rw [Bool.eq_iff_iff]
+        simp only [List.all_eq_true]
+        constructor
+        · intro h x hx; rw [← ih t x (this x hx)]; exact h x hx
+        · intro h x hx; rw [ih t x (this x hx)]; exact h x hx
+      | null => simp [validLit, litOk]
+      | int i => have := ih t (.int i) hk; simpa [validLit, litOk] using this
+      | float f => have := ih t (.float f) hk; simpa [validLit, litOk] using this
+      | str s => have := ih t (.str s) hk; simpa [validLit, litOk] using this
+      | bool b => have := ih t (.bool b) hk; simpa [validLit, litOk] using this
+      | enum e => have := ih t (.enum e) hk; simpa [validLit, litOk] using this
+      | obj fs => have := ih t (.obj fs) hk; simpa [validLit, litOk] using this
+    | nonNull t =>
+      cases c with
+      | var x => exact absurd ⟨x, rfl⟩ hvar
+      | null => simp [validLit, litOk]
+      | list xs => have := ih t (.list xs) hk; simpa [validLit, litOk] using this
+      | int i => have := ih t (.int i) hk; simpa [validLit, litOk] using this
+      | float f => have := ih t (.float f) hk; simpa [validLit, litOk] using this
+      | str s => have := ih t (.str s) hk; simpa [validLit, litOk] using this
+      | bool b => have := ih t (.bool b) hk; simpa [validLit, litOk] using this
+      | enum e => have := ih t (.enum e) hk; simpa [validLit, litOk] using this
+      | obj fs => have := ih t (.obj fs) hk; simpa [validLit, litOk] using this
+
+end AGV.Lemmas.ValidateLiterals
+
+namespace AGV.Lemmas.ValidateLiterals
+open AGV.Core AGV.Model.Validate AGV.Lemmas.ValidateRules
 open AGV.Spec.Validate (litOk litOf litOfL litOfF tyDef kindIs)
 
 /-- `is_valid_input_value` (repaired) = §5.6.1 on constants whose object literals do not repeat keys,
@@ -337,6 +531,7 @@ theorem valid_eq_lit (S : VSchema) (hS : LitSchema S) (fuel : Nat) :
       | enum e => have := ih t (.enum e) hk; simpa [validInput, litOk, litOf] using this
       | obj fs => have := ih t (.obj fs) hk; simpa [validInput, litOk, litOf] using this
 
+
 /-- no object literal inside a default value repeats a key -/
 def DefaultKeysOk (d : Doc) : Prop := ∀ o ∈ d.ops, ∀ v ∈ o.vars, ∀ dv, v.default = some dv → keysOk dv = true
 
@@ -345,15 +540,12 @@ theorem defaultsAgree_of (S : VSchema) (d : Doc) (hS : LitSchema S) (hK : Defaul
   fun o ho v hv dv hdv => valid_eq_lit S hS _ v.ty dv (hK o ho v hv dv hdv)
 
 /-- no object literal inside an argument repeats a key -/
-def ArgKeysOk (S : VSchema) (d : Doc) : Prop := ∀ s ∈ Spec.Validate.argSites S d, ∀ a ∈ s.2, keysOk (constOf a.2) = true
+def ArgKeysOk (S : VSchema) (d : Doc) : Prop := ∀ s ∈ Spec.Validate.argSites S d, ∀ a ∈ s.2, keysOkD a.2 = true
 
-/-- `ArgLiteralsAgree` from registry conditions, unique keys and variable-free arguments -/
-theorem argLiteralsAgree_of (S : VSchema) (d : Doc) (hS : LitSchema S) (hK : ArgKeysOk S d)
-    (hV : ∀ s ∈ Spec.Validate.argSites S d, ∀ a ∈ s.2, Spec.Validate.varsIn a.2 = []) : ArgLiteralsAgree S d := by
+/-- `ArgLiteralsAgree` from registry conditions and unique keys (variables anywhere) -/
+theorem argLiteralsAgree_of (S : VSchema) (d : Doc) (hS : LitSchema S) (hK : ArgKeysOk S d) : ArgLiteralsAgree S d := by
   intro s hs a ha ad _
-  have h := valid_eq_lit S hS Model.Validate.valueFuel ad.ty (constOf a.2) (hK s hs a ha)
-  rw [(substVars_varFree [] a.2 (hV s hs a ha)).2] at h
-  exact h
+  exact lit_eq S hS Model.Validate.valueFuel ad.ty a.2 (hK s hs a ha)
 
 end AGV.Lemmas.ValidateLiterals
 
